@@ -27,7 +27,9 @@ from vlib import paths
 #   hold  = 1: the cubic branch of _fill_coeff keeps the boundary sample outside the channel's grid (fixes/C14-4.patch)
 #   hdr   = 1: save_coeff always writes the header line (comment prefix inside the header, fixes/C14-5.patch);
 #           0: np.savetxt(header=header) as found - no line at all for an empty header
-FLAGS = {"zl": 0, "ndmin": 0, "hold": 0, "hdr": 0, "cubic": "fun _ => .notAKnot", "read": False}
+#   dimsonly = 1: Model.__init__ takes the number of subsystems from len(dims) when num_qubits is not given
+#                 (fixes/C14-6.patch); 0: `... else N` as found - Processor(dims=[...]) raises NameError
+FLAGS = {"zl": 0, "ndmin": 0, "hold": 0, "hdr": 0, "dimsonly": 0, "cubic": "fun _ => .notAKnot", "read": False}
 
 _CUBIC_HEAD = ["sp = CubicSpline(old_tlist, old_coeffs)", "new_coeff = sp(full_tlist)"]
 _CUBIC_ZERO = ["new_coeff *= full_tlist <= old_tlist[-1]", "new_coeff *= full_tlist >= old_tlist[0]"]
@@ -117,7 +119,34 @@ def detect_flags():
     if hdr is None:
         raise TranslatorError("np.savetxt call of save_coeff not found")
     cubic, hold = _cubic_branch(_func(t_pulse, "_fill_coeff"))
-    return {"zl": zl, "ndmin": ndmin, "hold": hold, "hdr": hdr, "cubic": cubic, "read": True}
+    return {"zl": zl, "ndmin": ndmin, "hold": hold, "hdr": hdr, "dimsonly": _dims_only(t_proc), "cubic": cubic, "read": True}
+
+
+_MODEL_INIT_OLD = ["self.num_qubits = num_qubits if num_qubits is not None else N",
+                   "self.dims = dims if dims is not None else num_qubits * [2]"]
+_MODEL_INIT_NEW = ["if num_qubits is None:\n    if dims is None:\n        raise ValueError('Either num_qubits or dims must be given.')\n"
+                   "    num_qubits = len(dims)",
+                   "self.num_qubits = num_qubits",
+                   "self.dims = dims if dims is not None else num_qubits * [2]"]
+
+
+def _dims_only(t_proc):
+    """how Model.__init__ settles num_qubits / dims (the first statements up to the assignment of self.dims)"""
+    for node in ast.walk(t_proc):
+        if isinstance(node, ast.ClassDef) and node.name == "Model":
+            for fn in node.body:
+                if isinstance(fn, ast.FunctionDef) and fn.name == "__init__":
+                    head = []
+                    for st in fn.body:
+                        head.append(ast.unparse(st))
+                        if head[-1].startswith("self.dims ="):
+                            break
+                    if head == _MODEL_INIT_OLD:
+                        return 0
+                    if head == [ast.unparse(ast.parse(x).body[0]) for x in _MODEL_INIT_NEW]:
+                        return 1
+                    raise TranslatorError("Model.__init__: settling of num_qubits / dims not recognised: " + "; ".join(head)[:300])
+    raise TranslatorError("class Model / its __init__ not found in device/processor.py")
 
 
 def flags():
@@ -294,6 +323,8 @@ def make_spec(rng, full_prob=0.3, last_zero=True, nsub=None, const=None):
     spec = {"dims": dims, "seed": seed, "chans": chans, "drift": drift, "dm": rng.random() < 0.4}
     if (rng.random() < 0.3) if const is None else const:
         add_const_channel(rng, spec)
+    if rng.random() < 0.6:
+        spec["ctor"] = rng.choice(ctor_forms(dims))
     return spec
 
 
@@ -401,11 +432,49 @@ def rounding_tags(spec):
     return ["ends=" + ("equal-not-bitwise" if near else "bitwise-equal-or-apart"), "interior-coincidence-not-bitwise=" + str(inner)]
 
 
+# every documented way to construct a Processor: Processor(num_qubits), Processor(num_qubits, dims=...), Processor(dims=...),
+# the old keyword N=..., Processor(model=Model(...))
+CTOR_FORMS = ["both", "dims", "num_qubits", "N", "model"]
+
+
+def ctor_forms(dims):
+    """the constructor forms that can produce `dims` (dims-only only on a tree where Model.__init__ supports it)"""
+    out = ["both", "model"]
+    if flags()["dimsonly"]:
+        out.append("dims")
+    if all(d == 2 for d in dims):
+        out += ["num_qubits", "N"]
+    return out
+
+
+def new_processor(dims, ctor="both", spline="step_func"):
+    from qutip_qip.device import Processor
+    from qutip_qip.device.processor import Model
+    dims = list(dims)
+    if ctor == "dims":
+        return Processor(dims=dims, spline_kind=spline)
+    if ctor == "num_qubits":
+        return Processor(num_qubits=len(dims), spline_kind=spline)
+    if ctor == "N":
+        return Processor(N=len(dims), spline_kind=spline)
+    if ctor == "model":
+        return Processor(model=Model(len(dims), dims=dims), spline_kind=spline)
+    return Processor(len(dims), dims=dims, spline_kind=spline)
+
+
+def ctor_text(dims, ctor):
+    n = len(dims)
+    return {"dims": f"Processor(dims={list(dims)})", "num_qubits": f"Processor(num_qubits={n})", "N": f"Processor(N={n})",
+            "model": f"Processor(model=Model({n}, dims={list(dims)}))"}.get(ctor, f"Processor({n}, dims={list(dims)})")
+
+
 def build_processor(spec, labels=None):
     qutip, Processor, _f, _P = _impl()
     dims = spec["dims"]
     rng_np = np.random.default_rng(spec["seed"])
-    p = Processor(len(dims), dims=list(dims), spline_kind=spec.get("spline", "step_func"))
+    p = new_processor(dims, spec.get("ctor", "both"), spec.get("spline", "step_func"))
+    if list(p.dims) != list(dims) or p.num_qubits != len(dims):
+        raise ValueError(f"{ctor_text(dims, spec.get('ctor', 'both'))} has dims {p.dims}, num_qubits {p.num_qubits}")
     mats = []
     drift_full = np.zeros((int(np.prod(dims)),) * 2, dtype=complex)
     if spec.get("drift"):
@@ -752,6 +821,430 @@ def solver_operator_mismatch(p, spec, T, drift_full, mats):
     return None
 
 
+# ----------------------------------------------------------------------------------------------
+# processor HISTORIES: one Processor object is evolved, edited through its public API, evolved again, ...
+# state (the fields the processor STATES at a moment, kept by the harness independently of the object):
+#   {"dims", "ctor", "via": "add_pulse" | "add_control", "seed", "dm", "drifts": [{"targets", "mseed"}],
+#    "chans": [{"label", "targets", "mseed", "tlist": [...] | None, "coeff": [...] | bool}]}
+# the operator of a channel / drift is herm(default_rng(mseed)) on its targets (in that order)
+HIST_DIMS = [[2, 2], [2, 2, 2], [2, 3, 2], [3, 3], [2, 2, 3], [3, 2, 3], [2, 3]]
+HIST_PROBES = ["coeffs", "analytic", "controls", "qobjevo", "qobjevo_ideal", "solver", "solver_ideal", "reload"]
+
+
+def state_matrix(dims, targets, mseed):
+    return herm(np.random.default_rng(mseed), int(np.prod([dims[i] for i in targets])))
+
+
+def state_qobj(dims, targets, mseed):
+    qutip = _impl()[0]
+    return qutip.Qobj(state_matrix(dims, targets, mseed), dims=[[dims[i] for i in targets]] * 2)
+
+
+def state_mats(state):
+    dims = state["dims"]
+    drift_full = np.zeros((int(np.prod(dims)),) * 2, dtype=complex)
+    for d in state["drifts"]:
+        drift_full = drift_full + embed(state_matrix(dims, d["targets"], d["mseed"]), d["targets"], dims)
+    return drift_full, [embed(state_matrix(dims, c["targets"], c["mseed"]), c["targets"], dims) for c in state["chans"]]
+
+
+def _pulse_of(state, ch):
+    Pulse = _impl()[3]
+    return Pulse(state_qobj(state["dims"], ch["targets"], ch["mseed"]), list(ch["targets"]),
+                 tlist=None if ch.get("tlist") is None else np.array(ch["tlist"], dtype=float),
+                 coeff=(bool(ch["coeff"]) if is_const(ch) else np.array(ch["coeff"], dtype=float)), label=ch["label"])
+
+
+def build_state_processor(state, via=None):
+    """a FRESH processor holding exactly the fields of `state`"""
+    dims = state["dims"]
+    p = new_processor(dims, state.get("ctor", "both"))
+    for d in state["drifts"]:
+        p.add_drift(state_qobj(dims, d["targets"], d["mseed"]), list(d["targets"]))
+    if (via or state.get("via")) == "add_control":
+        for ch in state["chans"]:
+            p.add_control(state_qobj(dims, ch["targets"], ch["mseed"]), list(ch["targets"]), label=ch["label"])
+        load_pulses(p, [ch["label"] for ch in state["chans"]], state)
+    else:
+        for ch in state["chans"]:
+            p.add_pulse(_pulse_of(state, ch))
+    return p
+
+
+def edit_text(e):
+    op = e["op"]
+    if op == "retarget":
+        return f"pulses[{e['chan']}].targets = {e['targets'][0] if e.get('scalar') else e['targets']}"
+    if op == "qobj":
+        return f"pulses[{e['chan']}].qobj = <another operator>"
+    if op == "coeff":
+        return f"pulses[{e['chan']}].coeff = {e['coeff']}"
+    if op == "tlist":
+        return f"pulses[{e['chan']}].tlist, .coeff = {e['tlist']}, {e['coeff']}"
+    if op == "add":
+        return f"add_pulse(Pulse(<operator>, {e['chan']['targets']}, tlist={e['chan']['tlist']}, coeff={e['chan']['coeff']}, label={e['chan']['label']!r}))"
+    if op == "remove":
+        return f"remove_pulse({'indices=' + str(e['chan']) if e.get('by') != 'label' else 'label=' + repr(e['label'])})"
+    if op == "drift":
+        return f"add_drift(<operator>, {e['drift']['targets']})"
+    return str(e)
+
+
+def apply_edit(p, state, e):
+    """one edit through the public API of Processor / Pulse, and the same edit on the stated fields"""
+    Pulse = _impl()[3]
+    dims = state["dims"]
+    op = e["op"]
+    if op == "retarget":
+        p.pulses[e["chan"]].targets = e["targets"][0] if e.get("scalar") else list(e["targets"])
+        state["chans"][e["chan"]]["targets"] = list(e["targets"])
+    elif op == "qobj":
+        ch = state["chans"][e["chan"]]
+        ch["mseed"] = e["mseed"]
+        p.pulses[e["chan"]].qobj = state_qobj(dims, ch["targets"], ch["mseed"])
+    elif op == "coeff":
+        p.pulses[e["chan"]].coeff = bool(e["coeff"]) if isinstance(e["coeff"], bool) else np.array(e["coeff"], dtype=float)
+        state["chans"][e["chan"]]["coeff"] = e["coeff"]
+    elif op == "tlist":
+        p.pulses[e["chan"]].tlist = np.array(e["tlist"], dtype=float)
+        p.pulses[e["chan"]].coeff = np.array(e["coeff"], dtype=float)
+        state["chans"][e["chan"]].update(tlist=list(e["tlist"]), coeff=list(e["coeff"]))
+    elif op == "add":
+        ch = dict(e["chan"])
+        p.add_pulse(_pulse_of(state, ch))
+        state["chans"].append(ch)
+    elif op == "remove":
+        if e.get("by") == "label":
+            p.remove_pulse(label=e["label"])
+        else:
+            p.remove_pulse(indices=e["chan"])
+        del state["chans"][e["chan"]]
+    elif op == "drift":
+        d = dict(e["drift"])
+        p.add_drift(state_qobj(dims, d["targets"], d["mseed"]), list(d["targets"]))
+        state["drifts"].append(d)
+    else:
+        raise ValueError("unknown edit " + str(op))
+
+
+def _rand_step_grid(rng):
+    n = rng.randint(2, 5)
+    tl = [0.0]
+    for _ in range(n - 1):
+        tl.append(tl[-1] + rng.choice([rng.uniform(0.05, 0.8), rng.randint(1, 6) / 8]))
+    return tl, [rng.choice([-1, 1]) * rng.uniform(0.2, 2.0) for _ in range(n - 1)]
+
+
+def _rand_targets(rng, dims, k=None):
+    k = k or rng.randint(1, min(2, len(dims)))
+    return rng.sample(range(len(dims)), k)
+
+
+def _retarget_options(dims, targets):
+    import itertools
+    want = [dims[i] for i in targets]
+    return [list(t) for t in itertools.permutations(range(len(dims)), len(targets))
+            if [dims[i] for i in t] == want and list(t) != list(targets)]
+
+
+def rand_edit(rng, state, counter, prefer=None):
+    """one random edit applicable to `state` (at least one array channel with a grid always remains)"""
+    dims = state["dims"]
+    arrays = [i for i, c in enumerate(state["chans"]) if not is_const(c)]
+    for _ in range(20):
+        op = prefer or rng.choice(["retarget", "retarget", "retarget", "qobj", "coeff", "tlist", "add", "remove", "drift"])
+        prefer = None
+        i = rng.randrange(len(state["chans"]))
+        ch = state["chans"][i]
+        if op == "retarget":
+            opts = _retarget_options(dims, ch["targets"])
+            if not opts:
+                continue
+            t = rng.choice(opts)
+            return {"op": "retarget", "chan": i, "targets": t, "scalar": len(t) == 1 and rng.random() < 0.5}
+        if op == "qobj":
+            return {"op": "qobj", "chan": i, "mseed": rng.randrange(2**31)}
+        if op == "coeff":
+            if is_const(ch):
+                return {"op": "coeff", "chan": i, "coeff": not ch["coeff"]}
+            if len(arrays) > 1 and rng.random() < 0.15:
+                return {"op": "coeff", "chan": i, "coeff": True}
+            return {"op": "coeff", "chan": i, "coeff": [rng.choice([-1, 1]) * rng.uniform(0.2, 2.0) for _ in ch["coeff"]]}
+        if op == "tlist":
+            tl, cs = _rand_step_grid(rng)
+            return {"op": "tlist", "chan": i, "tlist": tl, "coeff": cs}
+        if op == "add":
+            if len(state["chans"]) >= 4:
+                continue
+            tl, cs = _rand_step_grid(rng)
+            counter[0] += 1
+            return {"op": "add", "chan": {"label": f"q{counter[0]}", "targets": _rand_targets(rng, dims), "mseed": rng.randrange(2**31),
+                                          "tlist": tl, "coeff": cs}}
+        if op == "remove":
+            if len(state["chans"]) < 2 or arrays == [i]:
+                continue
+            return {"op": "remove", "chan": i, "label": ch["label"], "by": rng.choice(["index", "label"])}
+        if op == "drift":
+            if len(state["drifts"]) >= 2:
+                continue
+            return {"op": "drift", "drift": {"targets": _rand_targets(rng, dims), "mseed": rng.randrange(2**31)}}
+    return {"op": "qobj", "chan": 0, "mseed": rng.randrange(2**31)}
+
+
+def rand_probes(rng, final=False):
+    cheap = ["coeffs", "analytic", "controls", "qobjevo"]
+    if final:
+        pr = list(cheap)
+    else:
+        pr = [x for x in cheap if rng.random() < 0.7] or [rng.choice(cheap)]
+    for name, prob in (("qobjevo_ideal", 0.3), ("solver_ideal", 0.2), ("solver", 0.4), ("reload", 0.3)):
+        if rng.random() < prob:
+            pr.append(name)
+    rng.shuffle(pr)
+    return pr
+
+
+def make_history(rng, nsteps=None, ctor=None):
+    """witness of kind `phistory`: a base processor and 2-4 steps; every step after the first edits the SAME processor
+    object through its public API (1-2 edits, re-targeting preferred), then evolves / inspects it"""
+    dims = list(rng.choice(HIST_DIMS))
+    chans = []
+    for k in range(rng.randint(1, 3)):
+        tl, cs = _rand_step_grid(rng)
+        chans.append({"label": f"p{k}", "targets": _rand_targets(rng, dims), "mseed": rng.randrange(2**31), "tlist": tl, "coeff": cs})
+    if rng.random() < 0.2:
+        chans.append({"label": "k", "targets": _rand_targets(rng, dims), "mseed": rng.randrange(2**31),
+                      "tlist": None if rng.random() < 0.5 else [0.0, rng.uniform(0.2, 0.9)], "coeff": True})
+    state = {"dims": dims, "ctor": ctor or rng.choice(ctor_forms(dims)), "via": rng.choice(["add_pulse", "add_pulse", "add_control"]),
+             "seed": rng.randrange(2**31), "dm": rng.random() < 0.3,
+             "drifts": [{"targets": _rand_targets(rng, dims), "mseed": rng.randrange(2**31)}] if rng.random() < 0.6 else [],
+             "chans": chans}
+    import copy
+    shadow, counter = copy.deepcopy(state), [0]
+    nsteps = nsteps or rng.randint(2, 4)
+    steps = [{"edits": [], "probes": rand_probes(rng)}]
+    for k in range(1, nsteps):
+        edits = []
+        for j in range(rng.randint(1, 2)):
+            e = rand_edit(rng, shadow, counter, prefer=("retarget" if (k == 1 and j == 0 and rng.random() < 0.6) else None))
+            _apply_state_only(shadow, e)
+            edits.append(e)
+        steps.append({"edits": edits, "probes": rand_probes(rng, final=(k == nsteps - 1))})
+    return {"kind": "phistory", "state": state, "steps": steps}
+
+
+class _NoProc:
+    """stands in for the processor when only the stated fields are edited"""
+    class _P:
+        targets = qobj = coeff = tlist = None
+
+    def __init__(self, n):
+        self.pulses = [self._P() for _ in range(n + 8)]
+
+    def add_pulse(self, *_a, **_k):
+        pass
+
+    def remove_pulse(self, *_a, **_k):
+        pass
+
+    def add_drift(self, *_a, **_k):
+        pass
+
+
+def _apply_state_only(state, e):
+    if e["op"] == "add":
+        state["chans"].append(dict(e["chan"]))
+    elif e["op"] == "qobj":
+        state["chans"][e["chan"]]["mseed"] = e["mseed"]
+    else:
+        apply_edit(_NoProc(len(state["chans"])), state, e)
+
+
+def _product(us, n):
+    U = np.eye(n, dtype=complex)
+    for u in us:
+        U = u.full() @ U
+    return U
+
+
+def probe_state(p, state, probes, fresh=True):
+    """the processor object `p` against the fields it states NOW (`state`): every probe is compared with the independent
+    expm product / embedded operators of the current fields; then with a fresh processor built from the current fields.
+    -> None or a description of the first mismatch"""
+    import copy
+    qutip = _impl()[0]
+    drift_full, mats = state_mats(state)
+    grid = union_grid(state)
+    Uref = reference_U(grid, state, drift_full, mats)
+    n = Uref.shape[0]
+    psi, v = init_state(state)
+    opts = {"method": "dop853", "atol": 1e-10, "rtol": 1e-10, "nsteps": 100000}
+    T = None
+    for pr in probes:
+        try:
+            if pr == "coeffs":
+                T, C = p.get_full_tlist(), p.get_full_coeffs()
+                Tl = [float(t) for t in T]
+                if any(min(abs(g - t) for t in Tl) > 1e-9 for g in grid) or any(min(abs(g - t) for g in grid) > 0 for t in Tl):
+                    return f"get_full_tlist {Tl!r} does not represent the breakpoints {grid!r} of the current pulses"
+                d = coeffs_mismatch(state, T, C)
+                if d:
+                    return d
+            elif pr == "analytic":
+                err = float(np.abs(_product(p.run_analytically(), n) - Uref).max())
+                if err > 1e-9:
+                    return f"run_analytically differs from the time-ordered product of the CURRENT stated Hamiltonian by {err:.3e}"
+            elif pr == "controls":
+                cs = p.controls
+                if len(cs) != len(mats):
+                    return f"Processor.controls has {len(cs)} operators for {len(mats)} pulses"
+                for k, (a, b) in enumerate(zip(cs, mats)):
+                    err = float(np.abs(a.full() - b).max())
+                    if err > 1e-12:
+                        return (f"Processor.controls[{k}] is not the operator of pulse {state['chans'][k]['label']!r} on its current "
+                                f"targets {state['chans'][k]['targets']} (max deviation {err:.3e})")
+            elif pr in ("qobjevo", "qobjevo_ideal"):
+                noisy = pr == "qobjevo"
+                qu, _c = p.get_qobjevo(noisy=noisy)
+                if noisy or not state["drifts"]:       # noisy=False leaves the drift out (not judged): only filled / called
+                    for a, b in zip(grid[:-1], grid[1:]):
+                        if b - a < 1e-9:
+                            continue
+                        t = 0.5 * (a + b)
+                        H = drift_full + sum(chan_value(ch, t) * M for ch, M in zip(state["chans"], mats))
+                        err = float(np.abs(qu(t).full() - H).max())
+                        if err > 1e-9:
+                            return (f"get_qobjevo(noisy={noisy}) at t={t!r} differs from drift + sum coefficient * control of the "
+                                    f"CURRENT fields by {err:.3e}")
+            elif pr in ("solver", "solver_ideal"):
+                init = psi * psi.dag() if state.get("dm") else psi
+                kw = {} if pr == "solver" else {"noisy": False}
+                r = p.run_state(init, options=dict(opts), **kw)
+                if pr == "solver" or not state["drifts"]:
+                    exp = Uref @ v
+                    exp = np.outer(exp, exp.conj()) if state.get("dm") else exp.reshape(-1, 1)
+                    err = float(np.abs(r.states[-1].full() - exp).max())
+                    if err > 2e-6:
+                        return f"run_state({'noisy=False' if kw else ''}) differs from the time-ordered product of the CURRENT stated Hamiltonian by {err:.3e}"
+            elif pr == "reload":
+                dd = tempfile.mkdtemp(prefix="c14-")
+                try:
+                    fn = os.path.join(dd, "c.txt")
+                    p.save_coeff(fn)
+                    p2 = build_state_processor(state, via="add_control")
+                    p2.read_coeff(fn)
+                    err = float(np.abs(_product(p2.run_analytically(), n) - Uref).max())
+                    if err > 1e-9:
+                        return f"after save_coeff / read_coeff run_analytically differs from the time-ordered product by {err:.3e}"
+                finally:
+                    shutil.rmtree(dd, ignore_errors=True)
+        except Exception as e:
+            return f"{pr}: the implementation raised {type(e).__name__}: {str(e)[:120]}"
+    if fresh:
+        # the same fields on a fresh processor: bit-exact grid / coefficients, same propagators
+        try:
+            q = build_state_processor(state)
+            Tp, Tq = p.get_full_tlist(), q.get_full_tlist()
+            Cp, Cq = np.asarray(p.get_full_coeffs()), np.asarray(q.get_full_coeffs())
+            if not (np.array_equal(Tp, Tq) and np.array_equal(Cp, Cq)):
+                return "get_full_tlist / get_full_coeffs differ from those of a fresh processor built from the current fields"
+            Up, Uq = p.run_analytically(), q.run_analytically()
+            if len(Up) != len(Uq) or any(np.abs(a.full() - b.full()).max() > 1e-12 for a, b in zip(Up, Uq)):
+                err = float(np.abs(_product(Up, n) - _product(Uq, n)).max())
+                return (f"run_analytically differs from that of a FRESH processor built from the current fields by {err:.3e} "
+                        f"(the fresh one differs from the time-ordered product by {float(np.abs(_product(Uq, n) - Uref).max()):.1e})")
+        except Exception as e:
+            return f"comparison with a fresh processor: the implementation raised {type(e).__name__}: {str(e)[:120]}"
+    return None
+
+
+def run_history(w, on_step=None):
+    """witness kind `phistory` on the real code.  `on_step(k, p, state)` may add checks (the model, in the correspondence).
+    -> (fails, detail)"""
+    import copy
+    state = copy.deepcopy(w["state"])
+    try:
+        p = build_state_processor(state)
+    except Exception as e:
+        return True, f"{ctor_text(state['dims'], state.get('ctor', 'both'))} / adding the pulses raises {type(e).__name__}: {str(e)[:120]}"
+    done = []
+    for k, st in enumerate(w["steps"]):
+        try:
+            for e in st["edits"]:
+                apply_edit(p, state, e)
+                done.append(edit_text(e))
+        except Exception as e2:
+            return True, f"step {k + 1}: the edit {done[-1] if done else ''} raises {type(e2).__name__}: {str(e2)[:120]}"
+        d = probe_state(p, state, st["probes"])
+        if d is None and on_step is not None:
+            d = on_step(k, p, state)
+        if d:
+            hist = "; ".join(f"step {j + 1}: " + (", ".join(edit_text(e) for e in s["edits"]) or "-") + " then " + "/".join(s["probes"])
+                             for j, s in enumerate(w["steps"][:k + 1]))
+            return True, (f"history on ONE {ctor_text(state['dims'], state.get('ctor', 'both'))} object, step {k + 1} of {len(w['steps'])}: {d}  "
+                          f"[history: {hist}]")
+    return False, f"all {len(w['steps'])} steps agree with the time-ordered product of the fields stated at that moment and with a fresh processor"
+
+
+# the history of the seeded-change report: evolve, move both pulses to other subsystems, evolve again
+RETARGET_WITNESS = {"kind": "phistory", "state": {
+    "dims": [2, 3, 2], "ctor": "both", "via": "add_pulse", "seed": 31, "dm": False,
+    "drifts": [{"targets": [1], "mseed": 5}],
+    "chans": [{"label": "x", "targets": [0], "mseed": 6, "tlist": [0.0, 0.13, 0.41, 0.7], "coeff": [1.3, -0.8, 0.6]},
+              {"label": "zy", "targets": [0, 2], "mseed": 7, "tlist": [0.0, 0.25, 0.33, 0.9, 1.2], "coeff": [0.5, 1.9, -1.1, 0.7]}]},
+    "steps": [{"edits": [], "probes": ["analytic", "controls", "solver"]},
+              {"edits": [{"op": "retarget", "chan": 0, "targets": [2], "scalar": True}, {"op": "retarget", "chan": 1, "targets": [2, 0]}],
+               "probes": ["controls", "analytic", "coeffs", "qobjevo", "solver"]}]}
+
+
+def history_family():
+    """systematic: for every way of touching the stored pulses first (run_analytically, controls, get_qobjevo with and
+    without noise, run_state with and without noise, save_coeff, nothing) x every kind of edit, then every cheap probe and
+    the solver"""
+    import copy
+    base = {"dims": [2, 3, 2], "ctor": "both", "via": "add_pulse", "seed": 41, "dm": False,
+            "drifts": [{"targets": [1], "mseed": 15}],
+            "chans": [{"label": "a", "targets": [0], "mseed": 16, "tlist": [0.0, 0.2, 0.55, 0.9], "coeff": [1.1, -0.7, 0.4]},
+                      {"label": "b", "targets": [2, 0], "mseed": 17, "tlist": [0.0, 0.35, 1.1], "coeff": [0.6, -1.4]}]}
+    edits = [[{"op": "retarget", "chan": 0, "targets": [2], "scalar": False}],
+             [{"op": "retarget", "chan": 1, "targets": [0, 2], "scalar": False}],
+             [{"op": "qobj", "chan": 1, "mseed": 99}],
+             [{"op": "coeff", "chan": 0, "coeff": [0.3, 0.9, -1.2]}],
+             [{"op": "tlist", "chan": 1, "tlist": [0.0, 0.5, 0.8, 1.4], "coeff": [0.2, 1.3, -0.6]}],
+             [{"op": "add", "chan": {"label": "c", "targets": [1], "mseed": 18, "tlist": [0.0, 0.45, 0.7], "coeff": [0.8, -0.5]}}],
+             [{"op": "remove", "chan": 0, "label": "a", "by": "index"}],
+             [{"op": "remove", "chan": 1, "label": "b", "by": "label"}],
+             [{"op": "drift", "drift": {"targets": [0, 2], "mseed": 19}}]]
+    firsts = [["analytic"], ["controls"], ["qobjevo_ideal"], ["solver_ideal"], ["qobjevo"], ["solver"], ["reload"], ["coeffs"]]
+    out = []
+    for i, ed in enumerate(edits):
+        for j, fp in enumerate(firsts):
+            if (i + j) % 2 and ed[0]["op"] != "retarget":        # every edit kind after every other first probe; re-targeting after all
+                continue
+            out.append({"kind": "phistory", "state": copy.deepcopy(base),
+                        "steps": [{"edits": [], "probes": list(fp)},
+                                  {"edits": copy.deepcopy(ed), "probes": ["controls", "coeffs", "qobjevo", "analytic"] + (["solver"] if j % 4 == 0 else [])}]})
+    return out
+
+
+def constructor_witnesses():
+    """one small evolution per documented constructor form (dims-only only where Model.__init__ supports it)"""
+    out = []
+    for dims in ([2, 3], [2, 2]):
+        for form in ctor_forms(dims):
+            out.append({"kind": "evolution", "spec": {
+                "dims": list(dims), "ctor": form, "seed": 51, "drift": {"targets": [1]}, "dm": False,
+                "chans": [{"targets": [0], "tlist": [0.0, 0.4, 1.0], "coeff": [0.7, -1.1]},
+                          {"targets": [1, 0], "tlist": [0.0, 0.25, 0.6], "coeff": [-0.5, 0.9]}]}})
+    return out
+
+
+DIMS_ONLY_WITNESS = {"kind": "evolution", "spec": {
+    "dims": [2, 3], "ctor": "dims", "seed": 51, "drift": {"targets": [1]}, "dm": False,
+    "chans": [{"targets": [0], "tlist": [0.0, 0.4, 1.0], "coeff": [0.7, -1.1]},
+              {"targets": [1, 0], "tlist": [0.0, 0.25, 0.6], "coeff": [-0.5, 0.9]}]}}
+
+
 LEAK_WITNESS = {"kind": "evolution", "spec": {
     "dims": [2], "seed": 1, "drift": None, "dm": False,
     "chans": [{"targets": [0], "tlist": [0.0, 1.0], "coeff": [2.0, 0.75]},
@@ -872,7 +1365,9 @@ class C14(PropertyCheck):
             "subsystems of dimension 2-3, optional drift, 1-4 random Hermitian controls, channels given as coeff=True/False with a tlist "
             "of their own (ending before / after / with the others, starting late), without tlist or with a scalar tlist; rounding "
             "stream: channel grids whose breakpoints and end points coincide as real numbers but not bitwise (cumsum of decimal "
-            "durations, typed-in decimals, k*0.1, other association order) with non-zero last coefficients; non-trivial = at least "
+            "durations, typed-in decimals, k*0.1, other association order) with non-zero last coefficients; history stream: one "
+            "Processor object (any documented constructor form) evolved, edited through the public API (pulse.targets/.qobj/.coeff/"
+            ".tlist, add_pulse, remove_pulse, add_drift) and evolved again, 2-4 steps; non-trivial = at least "
             "two channels with different grids; malformed inputs and save/reload are counted with their own tags")
 
     def regenerate(self, ctx):
@@ -891,7 +1386,8 @@ class C14(PropertyCheck):
             os.makedirs(os.path.dirname(gen), exist_ok=True)
             open(gen, "w").write(text)
         ctx.log(f"variants of {paths.REPO}: step padding zeroes the last element of a full-length coefficient = {bool(FLAGS['zl'])}, "
-                f"np.loadtxt ndmin = {FLAGS['ndmin']}, save_coeff always writes the header line = {bool(FLAGS['hdr'])}")
+                f"np.loadtxt ndmin = {FLAGS['ndmin']}, save_coeff always writes the header line = {bool(FLAGS['hdr'])}, "
+                f"Processor(dims=...) without num_qubits supported = {bool(FLAGS['dimsonly'])}")
         return [gen] if old != text else []
 
     # -----------------------------------------------------------------------------------------
@@ -1215,6 +1711,52 @@ class C14(PropertyCheck):
                 shutil.rmtree(d, ignore_errors=True)
         return None
 
+    def _model_grid_mismatch(self, ctx, p, spec):
+        """get_full_tlist / get_full_coeffs of the processor object against the model's merged grid and resampled coefficients for
+        the channels `spec` states (exact).  -> None, 'skip' or a description"""
+        chs = "!".join((f"b:{int(ch['coeff'])}" + ("" if ch.get("tlist") is None else ":" + fl(F(x) for x in ch["tlist"]))) if is_const(ch)
+                       else f"a:{fl(F(x) for x in ch['tlist'])}:{fl(F(x) for x in ch['coeff'])}" for ch in spec["chans"])
+        o, tight = self._three(ctx, lambda tol: f"coeffs tol={fs(tol)} chans={chs}")
+        if tight or not o.startswith("ok "):
+            return "skip"
+        Ts, rs = o[3:].split("|")
+        try:
+            T, C = p.get_full_tlist(), p.get_full_coeffs()
+        except Exception as e:
+            return f"get_full_tlist / get_full_coeffs raised {type(e).__name__}: {e}"
+        if not exact_eq(T, pfl(Ts)):
+            return "get_full_tlist differs from the model's merged grid of the current channels"
+        rm = [pfl(r) for r in rs.split("!")]
+        if len(rm) != len(C) or not all(exact_eq(a, b) for a, b in zip(C, rm)):
+            return "get_full_coeffs differs from the model's resampled coefficients of the current channels"
+        return None
+
+    def _history_stream(self, ctx, res, hists):
+        """processor histories: the model's contract is that every observable is a function of the fields the processor
+        states at that moment (nothing of an earlier evolution or of earlier field values survives).  After every step: model
+        grid / coefficients of the CURRENT channels (exact), expm product of the current fields, fresh processor."""
+        for w in hists:
+            edits = [e["op"] for st in w["steps"] for e in st["edits"]]
+            tags = ["history", f"steps={len(w['steps'])}", "constructor=" + w["state"].get("ctor", "both"), "built via " + w["state"]["via"]]
+            tags += sorted({"edit=" + e for e in edits})
+            skipped = []
+
+            def on_step(k, p, state):
+                d = self._model_grid_mismatch(ctx, p, state)
+                if d == "skip":
+                    skipped.append(k)
+                    return None
+                return d
+            try:
+                f, d = run_history(w, on_step)
+            except Exception as e:
+                f, d = True, "harness / implementation raised " + type(e).__name__ + ": " + str(e)[:200]
+            if skipped:
+                tags.append("history-step-model-skipped (tolerance-tight)")
+            res.case({"history": w}, nontrivial=len(w["steps"]) >= 2, tags=tags)
+            if f:
+                res.disagree({"history": w}, "time-ordered product / model grid of the fields stated at that step", d, d, w)
+
     def correspondence(self, ctx, res):
         rng = ctx.rng
         k = 8 if ctx.thorough else 1
@@ -1252,6 +1794,14 @@ class C14(PropertyCheck):
                 add_const_channel(rng, spec, shape=shape, value=val)
                 stream.append((spec, []))
                 nconst += 1
+        # every documented constructor form, qubits and mixed dimensions
+        for dims in ([2, 2], [2, 3], [3]):
+            for form in ctor_forms(dims):
+                spec = make_spec(rng, last_zero=not flags()["zl"], const=False)
+                spec.update(dims=list(dims), ctor=form, drift={"targets": [0]})
+                for c in spec["chans"]:
+                    c["targets"] = [rng.randrange(len(dims))]
+                stream.append((spec, ["constructor=" + form]))
         # channel grids that coincide as real numbers but not bitwise (outside the exact dyadic stream)
         nround = 0
         for spec in [dict(ROUNDING_WITNESS["spec"]), dict(ROUNDING_WITNESS_2["spec"])] + [make_rounding_spec(rng) for _ in range(28 * k)]:
@@ -1274,6 +1824,14 @@ class C14(PropertyCheck):
             if d and d != "skip":
                 res.disagree({"numeric": spec}, "ordered expm product over the model's merged grid", d, d,
                              {"kind": "evolution", "spec": spec})
+        hists = [RETARGET_WITNESS] + history_family() + [make_history(rng) for _ in range(30 * k)]
+        self._history_stream(ctx, res, hists)
+        res.notes.append(f"history stream: {len(hists)} histories on ONE Processor object (2-4 steps: evolve / inspect, then 1-2 edits "
+                         "through the public API - pulse.targets / .qobj / .coeff / .tlist, add_pulse, remove_pulse, add_drift -, "
+                         "evolve again): after every step run_analytically, Processor.controls, get_full_coeffs, get_qobjevo, "
+                         "run_state and save/reload (in varying order and subsets) against the expm product of the fields stated at "
+                         "that moment, the model's merged grid / coefficients of the current channels, and a fresh processor built "
+                         "from the current fields; processors constructed by every documented constructor form")
         res.notes.append(f"numeric stream: {nnum} random processors (every fourth with a channel given as coeff=True/False), {nconst} "
                          f"with a constant channel of every shape (own tlist ending before / after / with the others, starting late, "
                          f"no tlist) x both values, {nround} with channel grids whose breakpoints and end points coincide as real "
@@ -1349,9 +1907,14 @@ class C14(PropertyCheck):
         if kind == "cubic":
             d = check_cubic(w["spec"], solver=True, full=bool(w.get("full")))
             return (d is not None), (d or "resampled spline coefficients, slice product, solver and save/reload agree")
+        if kind == "phistory":
+            return run_history(w)
         if kind == "evolution":
             spec = w["spec"]
-            p, labels, drift_full, mats = build_processor(spec)
+            try:
+                p, labels, drift_full, mats = build_processor(spec)
+            except Exception as e:
+                return True, f"{ctor_text(spec['dims'], spec.get('ctor', 'both'))} raises {type(e).__name__}: {e}"
             load_pulses(p, labels, spec)
             grid = union_grid(spec)            # independent of the model: all points, no tolerance
             Uref = reference_U(grid, spec, drift_full, mats)
@@ -1492,7 +2055,11 @@ class C14(PropertyCheck):
         f, d = self.oracle_replay(ctx, RUNSTATE_WITNESS)
         if f:
             yield RUNSTATE_WITNESS, d
-        for w in (ROUNDING_WITNESS, ROUNDING_WITNESS_2, CONST_WITNESS, CONST_WITNESS_2):
+        for w in (ROUNDING_WITNESS, ROUNDING_WITNESS_2, CONST_WITNESS, CONST_WITNESS_2, RETARGET_WITNESS):
+            f, d = self.oracle_replay(ctx, w)
+            if f:
+                yield w, d
+        for w in history_family()[::3] + [make_history(rng) for _ in range(8)] + constructor_witnesses():
             f, d = self.oracle_replay(ctx, w)
             if f:
                 yield w, d
@@ -1531,6 +2098,7 @@ class C14(PropertyCheck):
                         if shape == "ends-last" and not flags()["hold"]:
                             continue
                     first.append({"kind": kind, "spec": add_const_channel(rng, base, shape=shape, value=val)})
+        first += [RETARGET_WITNESS] + constructor_witnesses() + history_family()
         for w in first:
             f, d = self.oracle_replay(ctx, w)
             if f:
@@ -1540,6 +2108,10 @@ class C14(PropertyCheck):
             i += 1
             spec = make_rounding_spec(rng) if i % 3 == 0 else make_spec(rng, last_zero=not flags()["zl"], const=(i % 3 == 1))
             w = {"kind": "evolution", "spec": spec}
+            f, d = self.oracle_replay(ctx, w)
+            if f:
+                yield w, d
+            w = make_history(rng)
             f, d = self.oracle_replay(ctx, w)
             if f:
                 yield w, d
